@@ -83,6 +83,18 @@ func basesOf(v ssa.Value) []ssa.Value {
 			} else {
 				out = append(out, x)
 			}
+		case *ssa.Call:
+			// append(s, …) returns s's own array whenever it has spare capacity: the result may alias s
+			// (append to a nil constant is a fresh array)
+			if b, ok := x.Call.Value.(*ssa.Builtin); ok && b.Name() == "append" && len(x.Call.Args) > 0 {
+				if c, isConst := x.Call.Args[0].(*ssa.Const); isConst && c.IsNil() {
+					out = append(out, x)
+				} else {
+					walk(x.Call.Args[0])
+				}
+				return
+			}
+			out = append(out, v)
 		default:
 			out = append(out, v)
 		}
